@@ -9,6 +9,7 @@ package main
 import (
 	"bufio"
 	"bytes"
+	"errors"
 	"fmt"
 	"io"
 	"net"
@@ -47,6 +48,10 @@ func (l *link) rnd() uint64 {
 type memConn struct {
 	l         *link
 	in, out   chan []byte
+	fmu       sync.Mutex
+	drop      func([]byte) bool // programmable loss on what this end sends
+	paused    bool              // hold what this end sends until resume
+	held      [][]byte
 	closed    chan struct{}
 	closeOnce sync.Once
 	dlMu      sync.Mutex
@@ -111,6 +116,17 @@ func (c *memConn) WriteMsg(b []byte) error {
 	if int32(c.l.rnd()%100) < c.l.loss.Load() {
 		return nil
 	}
+	c.fmu.Lock()
+	if c.drop != nil && c.drop(b) {
+		c.fmu.Unlock()
+		return nil
+	}
+	if c.paused {
+		c.held = append(c.held, append([]byte(nil), b...))
+		c.fmu.Unlock()
+		return nil
+	}
+	c.fmu.Unlock()
 	n := 1
 	if int32(c.l.rnd()%100) < c.l.dup.Load() {
 		n = 2
@@ -122,6 +138,20 @@ func (c *memConn) WriteMsg(b []byte) error {
 		}
 	}
 	return nil
+}
+func (c *memConn) pause() { c.fmu.Lock(); c.paused = true; c.fmu.Unlock() }
+func (c *memConn) resume() {
+	c.fmu.Lock()
+	c.paused = false
+	h := c.held
+	c.held = nil
+	c.fmu.Unlock()
+	for _, m := range h {
+		select {
+		case c.out <- m:
+		default:
+		}
+	}
 }
 func (c *memConn) Read(p []byte) (int, error)  { return c.ReadMsg(p) }
 func (c *memConn) Write(p []byte) (int, error) { return len(p), c.WriteMsg(p) }
@@ -519,6 +549,149 @@ func runScen(s scen) {
 	hv.Flush()
 }
 
+// The FIN overtakes a lost tail data frame: X writes head and tail, the first transmission of the
+// tail frame is lost, Y's acknowledgements are held until X's Close has queued the FIN, so the FIN
+// reaches Y while the tail is still missing and waits in Y's reorder heap; the retransmitted tail
+// (no FIN flag) then completes the stream.  Link healthy afterwards: both Close calls return, Y
+// reads all data then EOF, WaitForClose completes on both ends, writes after close fail.
+func runFinOvertake(id int, xIsClient bool, yClosesFirst bool) {
+	desc := fmt.Sprintf("#%d fin-overtakes-lost-tail writer=%s yClosesBeforeFin=%v", id, map[bool]string{true: "client", false: "server"}[xIsClient], yClosesFirst)
+	fmt.Fprintf(os.Stderr, "START %s\n", desc)
+	goBefore := runtime.NumGoroutine()
+	ca, cb, _ := newLink(uint64(id) + 77)
+	cm := tubes.Client(ca, &tubes.Config{Log: quiet()})
+	sm := tubes.Server(cb, &tubes.Config{Log: quiet()})
+	v := verdict{ok: true}
+	fail := func(sig, what string) {
+		if v.ok {
+			v = verdict{false, sig, what}
+		}
+	}
+	var rs []string
+	note := func(f string, a ...interface{}) { rs = append(rs, fmt.Sprintf(f, a...)) }
+	ctube, err := cm.CreateReliableTube(common.ExecTube)
+	var stube *tubes.Reliable
+	if err == nil {
+		ok, _, _ := within(3*time.Second, func() error {
+			t, e := sm.Accept()
+			if e == nil {
+				stube = t.(*tubes.Reliable)
+			}
+			return e
+		})
+		if !ok || stube == nil {
+			err = fmt.Errorf("accept")
+		}
+	}
+	if err != nil {
+		hv.Emit(hv.Case{Class: "setup-skipped", Desc: desc + " => setup failed (skipped)", Spec: true})
+		hv.Flush()
+		cm.Stop()
+		sm.Stop()
+		return
+	}
+	ctube.WaitForInit()
+	stube.WaitForInit()
+	x, y, xc, yc := ctube, stube, ca, cb
+	if !xIsClient {
+		x, y, xc, yc = stube, ctube, cb, ca
+	}
+	head := bytes.Repeat([]byte("h"), 100)
+	tail := bytes.Repeat([]byte("t"), 100)
+	dropped := false
+	xc.fmu.Lock()
+	xc.drop = func(b []byte) bool {
+		// frame: tubeID, meta, dataLength(2), ackNo(4), frameNo(4), data; meta bit layout irrelevant here:
+		// the tail data frame is recognised by its payload
+		if !dropped && len(b) == 12+len(tail) && bytes.Equal(b[12:], tail) {
+			dropped = true
+			return true
+		}
+		return false
+	}
+	xc.fmu.Unlock()
+	yc.pause()
+	x.Write(head)
+	x.Write(tail)
+	okx, ex, dx := within(bound, func() error { return x.Close() })
+	note("writer.Close=%v/%q(%dms)", okx, ex, dx.Milliseconds())
+	if !okx || ex != "" {
+		fail("C16:close-did-not-return", "writer Close: returned="+fmt.Sprint(okx)+" err="+ex)
+	}
+	if yClosesFirst {
+		oky, ey, _ := within(bound, func() error { return y.Close() })
+		note("reader.Close(before FIN)=%v/%q", oky, ey)
+		if !oky || ey != "" {
+			fail("C16:close-did-not-return", "reader Close: returned="+fmt.Sprint(oky)+" err="+ey)
+		}
+	}
+	yc.resume()
+	// the reader gets everything, then end-of-stream
+	var got []byte
+	okr, er, _ := within(10*time.Second, func() error {
+		y.SetReadDeadline(time.Time{})
+		buf := make([]byte, 4096)
+		for {
+			n, e := y.Read(buf)
+			got = append(got, buf[:n]...)
+			if e == io.EOF {
+				return nil
+			}
+			if e != nil {
+				if errors.Is(e, os.ErrDeadlineExceeded) && yClosesFirst {
+					// the reader's own Close cancelled pending reads; buffered data is still returned
+					// by later reads: keep reading until EOF
+					time.Sleep(5 * time.Millisecond)
+					continue
+				}
+				return e
+			}
+		}
+	})
+	note("read=%dB ok=%v err=%q", len(got), okr, er)
+	if !okr || er != "" {
+		fail("C16:reader-no-eof", fmt.Sprintf("reader did not reach end-of-stream (returned=%v err=%s, %d bytes)", okr, er, len(got)))
+	} else if !bytes.Equal(got, append(append([]byte(nil), head...), tail...)) {
+		fail("C16:reader-data-mismatch", fmt.Sprintf("reader got %d bytes, want %d", len(got), len(head)+len(tail)))
+	}
+	if !yClosesFirst {
+		oky, ey, _ := within(bound, func() error { return y.Close() })
+		note("reader.Close=%v/%q", oky, ey)
+		if !oky || ey != "" {
+			fail("C16:close-did-not-return", "reader Close: returned="+fmt.Sprint(oky)+" err="+ey)
+		}
+	}
+	// both ends closed, link healthy: closure completes without Stop
+	for _, p := range []struct {
+		n string
+		t *tubes.Reliable
+	}{{"writer", x}, {"reader", y}} {
+		okw, _, dw := within(10*time.Second, func() error { p.t.WaitForClose(); return nil })
+		note("%s.WaitForClose=%v(%dms)", p.n, okw, dw.Milliseconds())
+		if !okw {
+			st, _, _ := p.t.VerifShutdownState()
+			fail("C16:waitforclose-did-not-complete", fmt.Sprintf("both ends closed on a healthy link, %s.WaitForClose did not complete within 10 s (tubeState %d)", p.n, st))
+		}
+	}
+	if _, e := y.Write([]byte("late")); e == nil {
+		fail("C16:write-after-close-succeeded", "write after local close succeeded")
+	}
+	within(bound, func() error { cm.Stop(); return nil })
+	within(bound, func() error { sm.Stop(); return nil })
+	ca.Close()
+	cb.Close()
+	if goAfter := settle(goBefore); v.ok && goAfter > goBefore {
+		time.Sleep(1500 * time.Millisecond)
+		if goAfter = settle(goBefore); goAfter > goBefore {
+			fail("C16:goroutine-leak", fmt.Sprintf("goroutines before=%d after=%d", goBefore, goAfter))
+		}
+	}
+	full := desc + " => " + strings.Join(rs, ", ")
+	hv.Emit(hv.Case{Class: "fin-overtakes-tail", Desc: full, Spec: v.ok, Sig: v.sig, What: v.what, NT: true, Key: full,
+		Replay: map[string]interface{}{"scenario": desc, "results": rs}})
+	hv.Flush()
+}
+
 type verdict struct {
 	ok   bool
 	sig  string
@@ -553,6 +726,18 @@ func scenarios() []scen {
 }
 
 func child(from, to int) {
+	if from < 0 { // the fin-overtakes-tail family
+		k := 0
+		for _, xc := range []bool{true, false} {
+			for _, yf := range []bool{false, true} {
+				for rep := 0; rep < hv.Scale(1, 10); rep++ {
+					runFinOvertake(k, xc, yf)
+					k++
+				}
+			}
+		}
+		return
+	}
 	all := scenarios()
 	for i := from; i < to && i < len(all); i++ {
 		runScen(all[i])
@@ -571,7 +756,8 @@ func main() {
 	all := scenarios()
 	const batch = 6
 	type job struct{ from, to int }
-	jobs := make(chan job, len(all))
+	jobs := make(chan job, len(all)+1)
+	jobs <- job{-1, 0}
 	for i := 0; i < len(all); i += batch {
 		jobs <- job{i, i + batch}
 	}
